@@ -132,16 +132,96 @@ class Mask:
         self.selects_nonfinite = selects_nonfinite
 
 
-class Arr:
-    """Minimal numpy-array stand-in over nested lists."""
+class Cell:
+    """One element slot of an array buffer.  Views (basic slices, rows, reshape, transpose, ravel, iteration over rows,
+    asarray) share the Cells of their base, so a store through any of them is seen by all - as with numpy memory."""
 
-    def __init__(self, data):
-        self.data = data
+    __slots__ = ("v", "buf", "pos")
+
+    def __init__(self, v, buf=None, pos=0):
+        self.v = v
+        self.buf = buf  # the allocation this slot belongs to
+        self.pos = pos  # its position there (C order): lets ravel/reshape tell contiguous views (-> view) from others (-> copy)
+
+
+def _wrap_cells(d, _alloc=None):
+    alloc = _alloc if _alloc is not None else [object(), 0]
+    if isinstance(d, (list, tuple)):
+        return [_wrap_cells(x, alloc) for x in d]
+    c = Cell(d.v if isinstance(d, Cell) else d, alloc[0], alloc[1])
+    alloc[1] += 1
+    return c
+
+
+def _contiguous(cells):
+    """Do these cells (in flat order) occupy consecutive positions of one allocation?"""
+    return all(b.buf is a.buf and b.pos == a.pos + 1 for a, b in zip(cells, cells[1:]))
+
+
+def _unwrap_cells(c):
+    return [_unwrap_cells(x) for x in c] if isinstance(c, list) else c.v
+
+
+class Arr:
+    """Minimal numpy-array stand-in: nested lists of Cells.  `Arr(data)` allocates fresh cells for the nested values
+    (a new array); `Arr.view(cells)` wraps existing cells (a view).  `.data` reads the values out as nested lists (a
+    snapshot: mutating it changes nothing); every store goes through the cells (`_arr_store`, `overwrite`, `fill`)."""
+
+    def __init__(self, data, _cells=None):
+        self.cells = _cells if _cells is not None else _wrap_cells(data if isinstance(data, list) else list(data))
+
+    @classmethod
+    def view(cls, cells):
+        return cls(None, _cells=cells)
+
+    @property
+    def data(self):
+        return _unwrap_cells(self.cells)
+
+    @data.setter
+    def data(self, new):
+        self.overwrite(new)
+
+    def overwrite(self, new):
+        """In-place assignment of all elements (ndarray `a += b`, `a[...] = v`): shared cells keep their identity."""
+        def rec(c, d):
+            if isinstance(c, list):
+                if not isinstance(d, list) or len(d) != len(c):
+                    return False
+                return all(rec(x, y) for x, y in zip(c, d))
+            if isinstance(d, list):
+                return False
+            return True
+
+        def put(c, d):
+            if isinstance(c, list):
+                for x, y in zip(c, d):
+                    put(x, y)
+            else:
+                c.v = d
+
+        if rec(self.cells, new):
+            put(self.cells, new)
+        else:
+            self.cells = _wrap_cells(new)  # shape change (numpy would refuse): new buffer
+
+    def cell_ids(self):
+        out = set()
+
+        def rec(c):
+            if isinstance(c, list):
+                for x in c:
+                    rec(x)
+            else:
+                out.add(id(c))
+
+        rec(self.cells)
+        return out
 
     @property
     def shape(self):
         s = []
-        d = self.data
+        d = self.cells
         while isinstance(d, list):
             s.append(len(d))
             d = d[0] if d else None
@@ -154,14 +234,21 @@ class Arr:
         return Arr(rec(self.data))
 
     def _zip(self, o, f):
+        """Elementwise combination with numpy broadcasting: shapes are aligned at the LAST axis, missing leading axes and
+        axes of length 1 are stretched."""
         def rec(a, b):
             if isinstance(a, list) and isinstance(b, list):
+                da, db = _depth(a), _depth(b)
+                if da > db:
+                    return [rec(x, b) for x in a]
+                if db > da:
+                    return [rec(a, y) for y in b]
                 if len(a) != len(b):
                     if len(b) == 1:
                         return [rec(x, b[0]) for x in a]
                     if len(a) == 1:
                         return [rec(a[0], y) for y in b]
-                    raise Undecided("array shape mismatch")
+                    raise Raised("ValueError", f"operands could not be broadcast together (lengths {len(a)} and {len(b)})")
                 return [rec(x, y) for x, y in zip(a, b)]
             if isinstance(a, list):
                 return [rec(x, b) for x in a]
@@ -188,10 +275,23 @@ class Arr:
         rec(self.data)
         return out
 
+    def flat_cells(self):
+        out = []
+
+        def rec(d):
+            if isinstance(d, list):
+                for x in d:
+                    rec(x)
+            else:
+                out.append(d)
+
+        rec(self.cells)
+        return out
+
     def reshape(self, *shape):
         if len(shape) == 1 and isinstance(shape[0], (tuple, list)):
             shape = tuple(shape[0])
-        fl = self.flat()
+        fl = self.flat_cells()
         shape = [num_norm(x) for x in shape]
         if any(not isinstance(x, int) for x in shape):
             raise Undecided("reshape with a symbolic shape")
@@ -217,20 +317,22 @@ class Arr:
             step = len(vals) // dims[0] if dims[0] else 0
             return [build(vals[i * step:(i + 1) * step], dims[1:]) for i in range(dims[0])]
 
-        return Arr(build(fl, shape)) if shape else (fl[0] if fl else 0)
+        if not _contiguous(fl):
+            fl = _wrap_cells([c.v for c in fl])  # numpy copies when the elements are not contiguous in memory
+        return Arr.view(build(fl, shape)) if shape else (fl[0].v if fl else 0)
 
     @property
     def T(self):
         if len(self.shape) == 2:
-            return Arr([list(r) for r in zip(*self.data)])
+            return Arr.view([list(r) for r in zip(*self.cells)])
         return self
 
     def __iter__(self):
         # the elements of a numeric array are numpy scalars, not Python numbers (yaml's safe loader/dumper refuse them)
-        return iter([Arr(x) if isinstance(x, list) else np_scalar(x) for x in self.data])
+        return iter([Arr.view(x) if isinstance(x, list) else np_scalar(x.v) for x in self.cells])
 
     def __len__(self):
-        return len(self.data)
+        return len(self.cells)
 
     def __repr__(self):
         return f"Arr({self.data})"
@@ -434,6 +536,8 @@ class Evaluator:
         self.lenient_ext = lenient_ext  # unknown external calls yield inert opaque objects
         self.ext_calls = ext_calls or {}  # dotted -> callable(ev, *args, **kwargs), rule-supplied summaries
         self._in_getattribute = set()
+        self._memo_stores = {}  # (id(FuncInfo), id(closure Env)) -> {key: (key objects, value)} of lru_cache-decorated functions
+        self._default_cache = {}  # (id(FuncInfo), id(closure Env)) -> (closure, finfo, {param: default value}), see _defaults_of
         self.class_stores = {}  # (class fq, attr) -> value assigned at run time (Cls.attr = v): shared by all instances
         self.tolerance_tests = []  # (node, a, b): isclose-type tests evaluated on symbolic operands
         self.watched = {}  # id(container) -> label: native dicts/lists whose writers are recorded in watch_hits
@@ -578,22 +682,30 @@ class Evaluator:
             if attr == "copy":
                 return _NativeFn(lambda *a, **k: _deepcopy(self, obj))
             if attr == "size":
-                return len(obj.flat())
-            if attr == "sum":
-                return _NativeFn(lambda axis=None, **k: _b_sum(obj.flat()) if axis is None else _raise_undecided("array sum along an axis"))
+                return len(obj.flat_cells())
+            if attr == "flatten":
+                return _NativeFn(lambda *a, **k: Arr(obj.flat()))  # a copy
+            if attr == "ravel":
+                return _NativeFn(lambda *a, **k: _np_ravel(obj))
+            if attr == "flat":
+                return Arr.view(obj.flat_cells())
+            if attr == "astype":
+                return _NativeFn(lambda dtype=None, **k: _np_array(self, _deepcopy(self, obj), dtype=dtype))
+            if attr == "nbytes":
+                return 8 * len(obj.flat_cells())
+            if attr in ("sum", "prod", "max", "min", "mean", "any", "all", "cumsum", "dot", "argmax", "argmin", "clip", "round", "squeeze", "item", "conj", "nonzero", "argsort", "std", "var"):
+                fn = self.ext_calls.get(f"numpy.{attr}") or _EXT_CALLS.get(f"numpy.{attr}")
+                if fn is None:
+                    raise Undecided(f"array method {attr}")
+                return _NativeFn(lambda *a, _fn=fn, **k: _fn(self, obj, *a, **k))
             if attr == "transpose":
                 return _NativeFn(lambda *a: obj.T if not a else _raise_undecided("transpose with axes"))
             if attr == "dtype":
                 return OpaqueObj("dtype")
             if attr == "fill":
                 def fill(v):
-                    def rec(d):
-                        for i, x in enumerate(d):
-                            if isinstance(x, list):
-                                rec(x)
-                            else:
-                                d[i] = v
-                    rec(obj.data)
+                    for c_ in obj.flat_cells():
+                        c_.v = v
                 return _NativeFn(fill)
             raise Undecided(f"array attribute {attr}")
         if isinstance(obj, Arr0):
@@ -895,6 +1007,79 @@ class Evaluator:
                 raise WatchedWrite(*hit)
         return r
 
+    def _eval_defaults(self, fi, denv):
+        a = fi.node.args
+        params = [x.arg for x in a.posonlyargs + a.args]
+        out = {}
+        for p, d in zip(params[len(params) - len(a.defaults):], a.defaults):
+            out[p] = self.eval(d, denv)
+        for p, d in zip(a.kwonlyargs, a.kw_defaults):
+            if d is not None:
+                out[p.arg] = self.eval(d, denv)
+        return out
+
+    def _defaults_of(self, fv):
+        """Default values are evaluated ONCE, when the function is defined (nested def / lambda: eagerly, see make_closure;
+        module-level functions and methods: at the first call in this evaluator) - a mutable default is shared by all calls."""
+        d = getattr(fv, "defaults", None)
+        if d is not None:
+            return d
+        fi = fv.finfo
+        a = fi.node.args
+        if not a.defaults and not any(x is not None for x in a.kw_defaults):
+            return {}
+        key = (id(fi), id(fv.closure))
+        ent = self._default_cache.get(key)
+        if ent is None:
+            ent = (fv.closure, fi, self._eval_defaults(fi, fv.closure or Env(self, fi.module)))
+            self._default_cache[key] = ent
+        return ent[2]
+
+    def _memo_call(self, fv, args, kwargs, node):
+        """functools.lru_cache / cache: the first result for a key (the call's arguments, by hash and ==) is returned for
+        every later call with an equal key, whatever else changed in between; unhashable arguments raise as in Python."""
+        fi = fv.finfo
+
+        def hk(v):
+            v = num_norm(v) if not isinstance(v, (bool, str)) else v
+            if isinstance(v, (list, dict, set, Arr)) or (isinstance(v, ObjVal) and v.cinfo is None):
+                raise Raised("TypeError", f"unhashable type: '{type(v).__name__}' (argument of the cached function {fi.name})", node)
+            if isinstance(v, Rat):
+                return ("rat", v.canon())
+            if isinstance(v, tuple):
+                return tuple(hk(x) for x in v)
+            if isinstance(v, ObjVal):
+                m = v.cinfo.find_method("__hash__")
+                if m is not None:
+                    return ("objhash", v.cinfo.fq, hk(self.call(FuncVal(self, m, bound=v), [], {})))
+                return ("obj", id(v))
+            if isinstance(v, (int, Fraction, str, bool, frozenset)) or v is None:
+                return v
+            return ("id", id(v))
+
+        full = ([fv.bound] if fv.bound is not None and not fi.is_static else []) + list(args)
+        key = (tuple(hk(x) for x in full), tuple(sorted((k, hk(v)) for k, v in kwargs.items())))
+        store = self._memo_stores.setdefault((id(fi), id(fv.closure)), {})
+        if key in store:
+            return store[key][1]
+        fv2 = FuncVal(self, fi, closure=fv.closure, bound=fv.bound, defcls=fv.defcls)
+        fv2._memo_bypass = True
+        if getattr(fv, "defaults", None) is not None:
+            fv2.defaults = fv.defaults
+        v = self.call_func(fv2, args, kwargs, node)
+        store[key] = (full, v)  # keeps the key objects alive (ids stay unique)
+        return v
+
+    def make_closure(self, fi, env):
+        fv = FuncVal(self, fi, closure=env)
+        a = fi.node.args
+        if a.defaults or any(x is not None for x in a.kw_defaults):
+            try:
+                fv.defaults = self._eval_defaults(fi, env)
+            except Undecided:
+                fv.defaults = None  # evaluated (once) at the first call instead
+        return fv
+
     def call_func(self, fv, args, kwargs, node=None):
         fi = fv.finfo
         summ = self.summaries.get(fi.fq)
@@ -908,6 +1093,10 @@ class Evaluator:
             r = self.on_call(self, fv, args, kwargs)
             if r is not NotImplemented:
                 return r
+        if getattr(fi, "other_decorators", None):
+            raise Undecided(f"function {fi.name} is wrapped by a decorator the folder gives no meaning to ({fi.other_decorators[0][:40]})")
+        if getattr(fi, "memo_decorator", None) and not getattr(fv, "_memo_bypass", False):
+            return self._memo_call(fv, args, kwargs, node)
         if self.depth > MAX_DEPTH:
             # the repository's own call chains are ~25 deep: this is unbounded recursion in the analysed code
             raise Raised("RecursionError", f"maximum recursion depth exceeded (folded call depth {self.depth})", node)
@@ -917,7 +1106,7 @@ class Evaluator:
         env = Env(self, fi.module, parent=fv.closure, func=fi, defcls=fv.defcls)
         params = [x.arg for x in a.posonlyargs + a.args]
         defaults = [None] * (len(params) - len(a.defaults)) + list(a.defaults)
-        denv = fv.closure or Env(self, fi.module)
+        dvals = self._defaults_of(fv)
         if len(args) > len(params) and a.vararg is None:
             raise Raised("TypeError", f"{fi.name}() takes {len(params)} positional arguments but {len(args)} were given", node)
         for i, p in enumerate(params):
@@ -926,7 +1115,7 @@ class Evaluator:
             elif p in kwargs:
                 env.vars[p] = kwargs.pop(p)
             elif defaults[i] is not None:
-                env.vars[p] = self.eval(defaults[i], denv)
+                env.vars[p] = dvals[p]
             else:
                 raise Raised("TypeError", f"{fi.name}() missing argument {p}", node)
         if a.vararg is not None:
@@ -935,7 +1124,7 @@ class Evaluator:
             if p.arg in kwargs:
                 env.vars[p.arg] = kwargs.pop(p.arg)
             elif dflt is not None:
-                env.vars[p.arg] = self.eval(dflt, denv)
+                env.vars[p.arg] = dvals[p.arg]
             else:
                 raise Raised("TypeError", f"{fi.name}() missing keyword argument {p.arg}", node)
         if a.kwarg is not None:
@@ -1069,7 +1258,7 @@ class Evaluator:
             fi = getattr(s, "_func", None)
             if fi is None:
                 raise Undecided("unindexed nested function")
-            env.assign(s.name, FuncVal(self, fi, closure=env))
+            env.assign(s.name, self.make_closure(fi, env))
             return None
         if isinstance(s, ast.Pass):
             return None
@@ -1377,8 +1566,17 @@ class Evaluator:
             return True
         if isinstance(v, OpaqueObj):
             raise Undecided(f"opaque condition {v.label}")
+        if isinstance(v, Cx):
+            return self.truth(v.real, node) or self.truth(v.imag, node)
         if isinstance(v, Arr):
-            raise Undecided("truth value of an array")
+            fl = v.flat()
+            if len(fl) == 1:
+                return self.truth(fl[0], node)
+            if not fl:
+                return False  # numpy (< 2.2): empty array is falsy, with a DeprecationWarning
+            raise Raised("ValueError", "The truth value of an array with more than one element is ambiguous. Use a.any() or a.all()", node)
+        if isinstance(v, Arr0):
+            return self.truth(v.value, node)
         return bool(v)
 
     def iterate(self, v):
@@ -1389,7 +1587,7 @@ class Evaluator:
         if isinstance(v, dict):
             return list(v)
         if isinstance(v, Arr):
-            return [Arr(x) if isinstance(x, list) else np_scalar(x) for x in v.data]
+            return [Arr.view(x) if isinstance(x, list) else np_scalar(x.v) for x in v.cells]
         if isinstance(v, (type({}.items()), type({}.keys()), type({}.values()), enumerate, zip, filter, map)):
             return list(v)
         if isinstance(v, ObjVal):
@@ -1453,6 +1651,8 @@ class Evaluator:
 
     def e_NamedExpr(self, n, env):
         v = self.eval(n.value, env)
+        while getattr(env, "is_comp", False) and env.parent is not None:
+            env = env.parent
         env.assign(n.target.id, v)
         return v
 
@@ -1492,6 +1692,12 @@ class Evaluator:
         if isinstance(n.op, ast.Invert):
             if isinstance(v, Mask):
                 return Mask(v.arr, not v.selects_nonfinite)
+            if isinstance(v, bool) or (isinstance(v, int) and not isinstance(v, NpInt)) or isinstance(v, NpInt):
+                return ~int(v)
+            if isinstance(v, Arr):
+                fl = v.flat()
+                if all(isinstance(x, bool) for x in fl):
+                    return v._map(lambda x: not x)
             raise Undecided("bitwise invert")
         raise Undecided("unary op")
 
@@ -1610,6 +1816,20 @@ class Evaluator:
             return a // b
         if isinstance(op, ast.MatMult):
             return _matmul(self, a, b)
+        if isinstance(op, (ast.LShift, ast.RShift)):
+            if isinstance(a, int) and isinstance(b, int):
+                return a << b if isinstance(op, ast.LShift) else a >> b
+            raise Undecided("shift of a non-integer")
+        if isinstance(op, (ast.BitOr, ast.BitAnd, ast.BitXor)) and (isinstance(a, Arr) or isinstance(b, Arr)):
+            def bit(x, y, _op=op):
+                x, y = num_norm(x), num_norm(y)
+                if isinstance(x, (bool, int)) and isinstance(y, (bool, int)):
+                    return {ast.BitOr: lambda p, q: p | q, ast.BitAnd: lambda p, q: p & q, ast.BitXor: lambda p, q: p ^ q}[type(_op)](x, y)
+                raise Undecided("bitwise operator on non-integer array elements")
+
+            if isinstance(a, Arr):
+                return a._zip(b, bit)
+            return b._zip(a, lambda y, x: bit(x, y))
         if isinstance(op, (ast.BitOr, ast.BitAnd, ast.BitXor)):
             if isinstance(a, (dict, set, frozenset, bool, int)) and isinstance(b, (dict, set, frozenset, bool, int)) and not isinstance(a, Rat):
                 try:
@@ -1708,7 +1928,7 @@ class Evaluator:
         fi = getattr(n, "_func", None)
         if fi is None:
             raise Undecided("unindexed lambda")
-        return FuncVal(self, fi, closure=env)
+        return self.make_closure(fi, env)
 
     def e_Call(self, n, env):
         # super()
@@ -1754,6 +1974,19 @@ class Evaluator:
                 return o.store[k]
             raise Raised("KeyError", repr(k), n)
         if isinstance(o, Arr):
+            if isinstance(k, (list, Arr)):
+                idx = [num_norm(i) for i in (k.data if isinstance(k, Arr) else k)]
+                if idx and all(isinstance(i, bool) for i in idx):
+                    if len(idx) != len(o):
+                        raise Raised("IndexError", f"boolean index did not match indexed array: dimension is {len(o)} but corresponding boolean dimension is {len(idx)}", n)
+                    idx = [j for j, b in enumerate(idx) if b]
+                if not all(isinstance(i, int) and not isinstance(i, bool) for i in idx):
+                    raise Undecided("array indexed by a non-integer sequence")
+                rows = o.data
+                try:
+                    return Arr([rows[i] for i in idx])  # advanced indexing: always a copy
+                except IndexError:
+                    raise Raised("IndexError", f"index out of bounds for axis 0 with size {len(rows)}", n)
             return _arr_index(o, k)
         if isinstance(o, dict):
             if isinstance(k, Rat):
@@ -1786,19 +2019,26 @@ class Evaluator:
     def e_Starred(self, n, env):
         raise Undecided("starred expression")
 
+    def _comp_env(self, env):
+        """The one scope of a comprehension: all its targets live here (a closure made in the element binds them late)."""
+        ce = Env(self, env.module, parent=env, func=env.func, defcls=env_defcls(env), self_obj=env_self(env))
+        ce.is_comp = True
+        return ce
+
     def _comp(self, gens, env, emit):
-        def rec(i, e):
+        ce = self._comp_env(env)
+
+        def rec(i):
             if i == len(gens):
-                emit(e)
+                emit(ce)
                 return
             g = gens[i]
-            for item in self.iterate(self.eval(g.iter, e)):
-                e2 = Env(self, e.module, parent=e, func=e.func, defcls=env_defcls(e), self_obj=env_self(e))
-                self.assign(g.target, item, e2)
-                if all(self.truth(self.eval(c, e2), c) for c in g.ifs):
-                    rec(i + 1, e2)
+            for item in self.iterate(self.eval(g.iter, env if i == 0 else ce)):
+                self.assign(g.target, item, ce)
+                if all(self.truth(self.eval(c, ce), c) for c in g.ifs):
+                    rec(i + 1)
 
-        rec(0, env)
+        rec(0)
 
     def e_ListComp(self, n, env):
         out = []
@@ -1810,18 +2050,19 @@ class Evaluator:
         gens = n.generators
         first = self.iterate(self.eval(gens[0].iter, env))
 
-        def rec(i, e, items=None):
+        ce = self._comp_env(env)
+
+        def rec(i, items=None):
             if i == len(gens):
-                yield e
+                yield ce
                 return
             g = gens[i]
-            for item in (items if items is not None else self.iterate(self.eval(g.iter, e))):
-                e2 = Env(self, e.module, parent=e, func=e.func, defcls=env_defcls(e), self_obj=env_self(e))
-                self.assign(g.target, item, e2)
-                if all(self.truth(self.eval(c, e2), c) for c in g.ifs):
-                    yield from rec(i + 1, e2)
+            for item in (items if items is not None else self.iterate(self.eval(g.iter, ce))):
+                self.assign(g.target, item, ce)
+                if all(self.truth(self.eval(c, ce), c) for c in g.ifs):
+                    yield from rec(i + 1)
 
-        return (self.eval(n.elt, e) for e in rec(0, env, first))
+        return (self.eval(n.elt, e) for e in rec(0, first))
 
     def e_SetComp(self, n, env):
         return set(self.e_ListComp(n, env))
@@ -2039,6 +2280,16 @@ class _ExcVal:
         self.etype = etype
         self.msg = msg
 
+    @property
+    def args(self):
+        return (self.msg,)
+
+    def __str__(self):
+        return repr(self.msg) if self.etype == "KeyError" and not isinstance(self.msg, str) else str(self.msg)
+
+    def __repr__(self):
+        return f"{self.etype}({self.msg!r})"
+
 
 def _load(t):
     import copy as _c
@@ -2139,7 +2390,8 @@ def _matmul(ev, a, b):
 
 
 def _arr_index(o, k):
-    d = o.data
+    """Basic indexing (integers, slices, None): a view sharing the cells of `o`; a scalar comes out by value."""
+    d = o.cells
     if not isinstance(k, tuple):
         k = (k,)
 
@@ -2161,7 +2413,7 @@ def _arr_index(o, k):
             raise Raised("IndexError", f"index {k0} is out of bounds for axis with size {len(d)}")
 
     res = rec(d, k)
-    return Arr(res) if isinstance(res, list) else res
+    return Arr.view(res) if isinstance(res, list) else res.v
 
 
 def _depth(x):
@@ -2201,7 +2453,7 @@ def _arr_store(o, k, v, node=None):
             elif isinstance(sub, list):
                 raise Raised("ValueError", "setting an array element with a sequence", node)
             else:
-                d[j] = sub
+                d[j].v = sub
 
     def put(d, i, rest, val):
         try:
@@ -2216,11 +2468,11 @@ def _arr_store(o, k, v, node=None):
             fill(cur, val)
         elif isinstance(val, list):
             if len(val) == 1 and not isinstance(val[0], list):
-                d[i] = val[0]
+                d[i].v = val[0]
             else:
                 raise Raised("ValueError", "setting an array element with a sequence", node)
         else:
-            d[i] = val
+            d[i].v = val
 
     def rec(d, ks, val):
         k0, rest = ks[0], ks[1:]
@@ -2241,7 +2493,7 @@ def _arr_store(o, k, v, node=None):
         else:
             put(d, k0, rest, val)
 
-    rec(o.data, ks, val)
+    rec(o.cells, ks, val)
 
 
 def _canon_ext(d):
@@ -2463,7 +2715,7 @@ _BUILTINS = {
     "slice": slice,
     "bytes": bytes,
     "repr": repr,
-    "type": lambda o: ClassVal(_DUMMY, o.cinfo) if isinstance(o, ObjVal) and o.cinfo else type(o),
+    "type": lambda o: _b_type(o),
     "object": None,  # replaced below by _ObjectType()
     "ValueError": ValueError,
     "KeyError": KeyError,
@@ -2530,8 +2782,30 @@ def _b_isinstance2(v, t):
 _BUILTINS["isinstance"] = _b_isinstance2
 
 
+def _b_type(o):
+    if isinstance(o, ObjVal) and o.cinfo:
+        return ClassVal(_DUMMY, o.cinfo)
+    if isinstance(o, Arr0):
+        return type(o)
+    o = num_norm(o) if not isinstance(o, (bool, str, list, tuple, dict, set)) else o
+    if isinstance(o, bool):
+        return _T_BOOL
+    if isinstance(o, Fraction):
+        return _T_FLOAT  # floats are folded exactly
+    for t, px in ((int, _T_INT), (str, _T_STR), (dict, _T_DICT), (list, _T_LIST), (tuple, _T_TUPLE), (set, _T_SET)):
+        if type(o) is t:
+            return px
+    if isinstance(o, Rat):
+        return _T_FLOAT
+    return type(o)
+
+
+
 NARROW_DTYPES = {"numpy.float32", "numpy.float16", "numpy.single", "numpy.half", "numpy.int32", "numpy.int64", "numpy.int16", "numpy.int8",
                  "float32", "float16", "f4", "f2", "int", "i8", "i4", "int32", "int64"}
+
+
+_SAME_DTYPE = (None, "float", "float64", "double", "numpy.float64", "numpy.float_", "numpy.double", "numpy.floating")
 
 
 def _dtype_name(dtype):
@@ -2558,6 +2832,13 @@ class Arr0:
         return self.value
 
 
+def _np_ravel(a):
+    """ndarray.ravel(): a view when the elements are contiguous in memory (a whole array, a row, a one-row slice of columns),
+    otherwise a copy - the distinction numpy makes."""
+    fl = a.flat_cells()
+    return Arr.view(fl) if _contiguous(fl) else Arr([c.v for c in fl])
+
+
 def _np_array(ev, data, dtype=None, **kw):
     dn = _dtype_name(dtype)
     narrow = dn in NARROW_DTYPES
@@ -2571,6 +2852,8 @@ def _np_array(ev, data, dtype=None, **kw):
             return num_norm(Fraction(d))
         if narrow and isinstance(d, (Rat, Fraction)):
             return A.opaque(f"cast_{dn}", (num_norm(d),))  # precision/representation is lost here
+        if dn in ("bool", "numpy.bool_", "numpy.bool") and isinstance(num_norm(d), (int, Fraction, bool)):
+            return bool(num_norm(d))
         return d
 
     c = conv(data)
@@ -2884,7 +3167,10 @@ def _deepcopy(ev, v, memo=None):
     if isinstance(v, tuple):
         return tuple(_deepcopy(ev, x, memo) for x in v)
     if isinstance(v, Arr):
-        return Arr(_deepcopy(ev, v.data, memo))
+        out = Arr(v.data)  # fresh cells; element values are immutable (numbers, normal forms)
+        memo[id(v)] = out
+        memo.setdefault("__keepalive__", []).append(v)
+        return out
     if isinstance(v, ObjVal):
         o = ObjVal(v.cinfo, label=v.label)
         memo[id(v)] = o
@@ -2900,7 +3186,7 @@ def _copy(ev, v):
     if isinstance(v, dict):
         return dict(v)
     if isinstance(v, Arr):
-        return Arr(list(v.data))
+        return Arr(v.data)
     if isinstance(v, ObjVal):
         o = ObjVal(v.cinfo, dict(v.attrs), label=v.label)
         o.store = dict(v.store)
@@ -3167,7 +3453,10 @@ _EXT_CALLS = {
     "numpy.sign": _np_elementwise(_f_sign),
     "numpy.abs": _np_elementwise(_b_abs),
     "numpy.array": _np_array,
-    "numpy.asarray": _np_array,
+    "numpy.asarray": lambda ev, data, dtype=None, **kw: data if isinstance(data, (Arr, Arr0)) and _dtype_name(dtype) in _SAME_DTYPE else _np_array(ev, data, dtype=dtype, **kw),
+    "numpy.asanyarray": lambda ev, data, dtype=None, **kw: data if isinstance(data, (Arr, Arr0)) and _dtype_name(dtype) in _SAME_DTYPE else _np_array(ev, data, dtype=dtype, **kw),
+    "numpy.ascontiguousarray": lambda ev, data, dtype=None, **kw: data if isinstance(data, (Arr, Arr0)) and _dtype_name(dtype) in _SAME_DTYPE else _np_array(ev, data, dtype=dtype, **kw),
+    "numpy.ravel": lambda ev, a, **kw: _np_ravel(a) if isinstance(a, Arr) else Arr(list(a)),
     "numpy.zeros": _np_zeros,
     "numpy.zeros_like": lambda ev, x, **k: x._map(lambda _: 0) if isinstance(x, Arr) else 0,
     "numpy.sum": _np_sum,
